@@ -52,5 +52,5 @@ META = {
     'note': 'Exhaustive for arrays of <= 6 (quick) / 7 (thorough) timestamps; trusted: TLC, the monotone timestamp '
             'concretisation and the value-id encodings of the driver.',
     'technique': 'TLA+ spec (TSMMerge.tla, family arrays) + TLC exhaustive input enumeration + replay of every state on the real code',
-    'quick_s': 90, 'thorough_s': 400,
+    'quick_s': 40, 'thorough_s': 180,
 }
